@@ -2,6 +2,7 @@ import OSProofs.Props.C10
 import OSProofs.Props.C10Teams
 import OSProofs.Props.FL2
 import OSProofs.MonoArithInst
+import OSProofs.Props.PredictLoops
 #print axioms OS.C10_term_eq_band
 #print axioms OS.C10_terms_eq_pairBand
 #print axioms OS.C10_pairBand_eq
@@ -37,3 +38,5 @@ import OSProofs.MonoArithInst
 #print axioms OS.FL_C10_range_many
 #print axioms OS.FL_C10_le_one_many'
 #print axioms OS.FL_C10_range_many'
+#print axioms OS.predictDrawLoop_eq
+#print axioms OS.predictDrawLoop_eq_real
